@@ -283,7 +283,7 @@ def negate (d : Dialect) : Monad → Monad
           if d.isPg then
             .bexpr (if nullable then
                       (if cls == .attr then .or (.cons (.not sql) (.cons (.isNull sql) .nil))
-                       else .not (.coalesce sql (.value (.bool true))))
+                       else .not (.coalesce sql (.value (.bool false))))
                     else .not sql) false
           else
             .bexpr (if nullable then
@@ -568,8 +568,7 @@ def isAttr : Expr → Bool
     `not` over an `and`/`or` that truth-tests a possibly missing value, `pat not in s` for a possibly missing `s`, `is`/`is not`
     between two values, comparisons between a number and a string, `x in (…)` with items of another type than `x`,
     `None` anywhere but as the operand of `== != is is-not`, conditional expressions whose branches have different types,
-    `bool + bool`, unary minus / abs of a bool; on PostgreSQL additionally `not v` for a possibly missing bool value `v` that is not an
-    attribute (`NumericMixin.negate` emits `NOT COALESCE(v, true)` there);  and everything that is not in `Expr` at all. -/
+    `bool + bool`, unary minus / abs of a bool (PostgreSQL rejects them);  and everything that is not in `Expr` at all. -/
 def frag (sch : Schema) (d : Dialect) : Expr → Bool
   | .attr _ => true | .cInt _ => true | .cStr _ => true | .cBool _ => true | .param _ => true
   | .cNone => false
@@ -583,8 +582,7 @@ def frag (sch : Schema) (d : Dialect) : Expr → Bool
   | .and l r => frag sch d l && frag sch d r
   | .or l r => frag sch d l && frag sch d r
   | .not x =>
-      frag sch d x &&
-      (if valueSorted x then !(d.isPg && trTy sch d x == .bool && !isAttr x && !nn sch x) else exact sch x)
+      frag sch d x && (valueSorted x || exact sch x)
   | .bin _ l r => valueSorted l && valueSorted r && frag sch d l && frag sch d r && !(trTy sch d l == .bool && trTy sch d r == .bool)
   | .neg x => valueSorted x && frag sch d x && trTy sch d x == .int
   | .abs x => valueSorted x && frag sch d x && trTy sch d x == .int
